@@ -44,6 +44,8 @@ class Ctx(object):
         self.solve_calls = 0
         self.n_free = 0
         self.free = []
+        self.special_points = []      # ("stationary" | "fixed", function, vector) in call order
+        self.init_points = []         # starting points in call order
 
     def choice_rng(self):
         self.n_choice += 1
@@ -301,6 +303,7 @@ class NFunc(object):
     def stationary_point(self, return_gradient_and_function_value=False, name=None):
         xs = self._minimiser()
         CTX.anchor = xs
+        CTX.special_points.append(("stationary", self, np.array(xs, dtype=float)))
         x = NPt(xs, name)
         if return_gradient_and_function_value:
             return x, NPt(np.zeros_like(xs)), NEx(self._value(xs))
@@ -313,6 +316,7 @@ class NFunc(object):
         if fp is None:
             raise Unsupported("member without fixed point")
         CTX.anchor = fp
+        CTX.special_points.append(("fixed", self, np.array(fp, dtype=float)))
         x = NPt(fp, name)
         return x, x, NEx(0.0)
 
@@ -530,6 +534,7 @@ class NPEP(object):
             u = np.asarray(fixed, dtype=float)
             u = u / max(np.linalg.norm(u), 1e-12)
         anchor = CTX.anchor if CTX.anchor is not None else np.zeros(CTX.dim)
+        CTX.init_points.append(np.array(anchor + CTX.scale * u, dtype=float))
         return NPt(anchor + CTX.scale * u, name)
 
     def set_initial_condition(self, condition, name=None):
@@ -949,7 +954,9 @@ def run_numeric(func_module, func_name, kwargs, member_seed, dir_seed, dim, adve
                 raise InvalidRun("an equality constraint is off by %.3e" % c.value)
         return {"perf": perf, "scale": lo, "worst_constraint": worst, "n_constraints": len(ctx.constraints),
                 "members": [f.member.describe() for f in ctx.functions], "n_decl": ctx.n_decl, "n_init": ctx.n_init,
-                "n_unit": getattr(ctx, "n_unit", 0), "n_level": getattr(ctx, "n_level", 0)}
+                "n_unit": getattr(ctx, "n_unit", 0), "n_level": getattr(ctx, "n_level", 0),
+                "env": {"functions": list(ctx.functions), "x0": list(ctx.init_points), "special": list(ctx.special_points),
+                        "dim": ctx.dim, "n_choice": ctx.n_choice}}
     finally:
         restore()
         CTX = None
